@@ -17,6 +17,7 @@ let rec err_class (e : err) : string =
   | ECtx -> "canceled"
   | EUnexpected -> "err:other"
   | EPanic -> "panic"
+  | ENoAmmoText -> "err:other"
   | ELoad e' -> err_class e'
 
 let out_class (o : outcome) : string =
@@ -62,7 +63,7 @@ let predict (c : string) (obs : string) : string * string * bool =
          | None -> render (deliver k preload cf es None (fuel ocount))
          | Some _ ->
              let p_c = render (deliver k preload cf es (Some (nat_of_int ocount)) (fuel ocount)) in
-             if bnd = None then p_c
+             if bnd = None && src_len > 0 then p_c   (* an unbounded run over a matching filter never ends by itself *)
              else begin
                let p_none = render (deliver k preload cf es None (fuel ocount)) in
                if p_none = oline then p_none else p_c
